@@ -65,6 +65,9 @@ pub enum Case {
         capacity: usize,
         /// a valid fill of this many samples first (the buffer has a history)
         pre_fill: Option<usize>,
+        /// the buffer was created with this size and then `resize`d to `capacity` (shrunk or grown)
+        #[serde(default)]
+        resize_from: Option<usize>,
         bad: BadFill,
     },
     ByzFrame {
@@ -169,8 +172,14 @@ fn bad_fill_on<F: Fill>(dest: &mut F, channels: usize, bits: usize, capacity: us
 }
 
 #[allow(clippy::too_many_arguments)]
-fn exec_byz_fill(case: &Case, target: u8, channels: usize, bits: usize, capacity: usize, pre_fill: Option<usize>, bad: &BadFill, stats: &mut Stats) -> Result<Option<Violation>, String> {
-    let mut fb = FrameBuf::with_size(channels, capacity).map_err(|e| format!("HARNESS: framebuf: {e}"))?;
+fn exec_byz_fill(case: &Case, target: u8, channels: usize, bits: usize, capacity: usize, pre_fill: Option<usize>, resize_from: Option<usize>, bad: &BadFill, stats: &mut Stats) -> Result<Option<Violation>, String> {
+    let mut fb = FrameBuf::with_size(channels, resize_from.unwrap_or(capacity)).map_err(|e| format!("HARNESS: framebuf: {e}"))?;
+    if resize_from.is_some() {
+        fb.resize(capacity);
+        if fb.size() != capacity {
+            return Err("HARNESS: resize did not take".into());
+        }
+    }
     let mut ctx = Context::new(bits, channels);
     if let Some(n) = pre_fill {
         let block = quiet_block(bits, n.min(capacity) * channels, 3);
@@ -322,8 +331,9 @@ pub fn exec_case(case: &Case, stats: &mut Stats) -> Result<Option<Violation>, St
             bits,
             capacity,
             pre_fill,
+            resize_from,
             bad,
-        } => exec_byz_fill(case, *target, *channels, *bits, *capacity, *pre_fill, bad, stats),
+        } => exec_byz_fill(case, *target, *channels, *bits, *capacity, *pre_fill, *resize_from, bad, stats),
         Case::ByzFrame {
             channels,
             bits,
@@ -440,6 +450,7 @@ pub fn gen_case(seed: u64, index: u64) -> Case {
                 bits,
                 capacity,
                 pre_fill: if r.chance(0.5) { Some(*r.pick(&[capacity, capacity - 1, 1])) } else { None },
+                resize_from: if r.chance(0.35) { Some(*r.pick(&[32usize, 64, 100, 257, 1024, 4096])).filter(|f| *f != capacity) } else { None },
                 bad,
             }
         }
@@ -497,7 +508,7 @@ pub fn run(ctx: &crate::RunCtx) -> (Summary, Vec<Violation>) {
         "a case = one misbehaviour of the peer on the Source/Fill seam: (byz_stream) an ordinary small stream (single-thread; the multi-thread \
          slice is parsim/C17P) whose source, at read k, hands over a sample outside the declared width, fills more samples than requested \
          (by 1, 2, 5, a block, blocks x channels), or fills bytes at a bytes-per-sample that disagrees with the width; (byz_fill) the same on one \
-         FrameBuf / Context / (FrameBuf, Context), fresh or already filled, incl. bytes-per-sample 0, 5, 8; (byz_frame) encode_fixed_size_frame on a \
+         FrameBuf / Context / (FrameBuf, Context), fresh, already filled, or resized (shrunk / grown) before, incl. bytes-per-sample 0, 5, 8; (byz_frame) encode_fixed_size_frame on a \
          buffer holding one out-of-range sample (delivered as ints or bytes) or with a frame number >= 2^31; (grid, auxiliary enumeration, not \
          simulation) format and block-size arguments of StreamInfo::new / Stream::new / FrameBuf::with_size / encode_with_fixed_block_size from \
          {0, min-1, max+1, 2^8+k, 2^16+k, 2^32+k, usize::MAX}. Oracle: Err - no panic, no Ok. distinct = distinct case hashes; non-trivial = the \
@@ -605,12 +616,21 @@ pub fn minimise(case: &serde_json::Value, class: &str, site: &str) -> serde_json
                 push(&|n| n.short_reads = false);
                 push(&|n| n.block = 32);
             }
-            Case::ByzFill { pre_fill: Some(_), .. } => {
-                let mut n = c.clone();
-                if let Case::ByzFill { pre_fill, .. } = &mut n {
-                    *pre_fill = None;
+            Case::ByzFill { pre_fill, resize_from, .. } => {
+                if pre_fill.is_some() {
+                    let mut n = c.clone();
+                    if let Case::ByzFill { pre_fill, .. } = &mut n {
+                        *pre_fill = None;
+                    }
+                    cands.push(n);
                 }
-                cands.push(n);
+                if resize_from.is_some() {
+                    let mut n = c.clone();
+                    if let Case::ByzFill { resize_from, .. } = &mut n {
+                        *resize_from = None;
+                    }
+                    cands.push(n);
+                }
             }
             _ => {}
         }
